@@ -202,9 +202,24 @@ func (c *sctx) expr(e Expr) (Term, *SType) {
 					}
 					ts = append(ts, t)
 				}
+				// a trigger that still contains connectives (a pure function that expands to a conditional) is not a
+				// valid pattern (cvc5 rejects the query, z3 warns): its connective-free subterms over the bound
+				// variables are used instead, each as an alternative pattern
+				if len(ts) == 1 && hasConnective(ts[0]) {
+					var bound []string
+					for _, v := range x.Vars {
+						bound = append(bound, sym("q."+v.Name))
+					}
+					for _, sub := range patternSubterms(ts[0], bound) {
+						pats = append(pats, ":pattern ("+sub+")")
+					}
+					continue
+				}
 				pats = append(pats, ":pattern ("+strings.Join(ts, " ")+")")
 			}
-			body = "(! " + body + " " + strings.Join(pats, " ") + ")"
+			if len(pats) > 0 {
+				body = "(! " + body + " " + strings.Join(pats, " ") + ")"
+			}
 		}
 		q := "exists"
 		if x.Forall {
@@ -1775,4 +1790,49 @@ func regexToSMT(re string) Term {
 		return app("str.to_re", strLit(string(ch)))
 	}
 	return alt()
+}
+
+var connectiveHeads = []string{"(ite ", "(and ", "(or ", "(not ", "(=> ", "(= ", "(< ", "(<= ", "(> ", "(>= ", "(+ ", "(- ", "(* "}
+
+func hasConnective(t Term) bool {
+	for _, h := range connectiveHeads {
+		if strings.Contains(t, h) {
+			return true
+		}
+	}
+	return false
+}
+
+// patternSubterms: the maximal subterms of t that are applications without connectives or arithmetic and that
+// mention every bound variable.
+func patternSubterms(t Term, bound []string) []Term {
+	var out []Term
+	seen := map[Term]bool{}
+	var walk func(t Term)
+	walk = func(t Term) {
+		if len(t) == 0 || t[0] != '(' {
+			return
+		}
+		if !hasConnective(t) {
+			all := true
+			for _, b := range bound {
+				if !strings.Contains(t, b+" ") && !strings.Contains(t, b+")") {
+					all = false
+				}
+			}
+			if all && !seen[t] {
+				seen[t] = true
+				out = append(out, t)
+			}
+			return
+		}
+		for _, k := range splitTop(t)[1:] {
+			walk(k)
+		}
+	}
+	walk(t)
+	if len(out) > 4 {
+		out = out[:4]
+	}
+	return out
 }
